@@ -232,7 +232,10 @@ CHECKS = {
             'topological sort returns exactly when the mathematical graph is acyclic, what it returns lists every node '
             'once after all its dependencies (topologicalSort_sound, by the DFS invariant visit_sound), and on a cycle '
             'it fails with the cycle error and nothing else (topologicalSort_total, visit_total: the recursion budget '
-            'size+1 is never exhausted). graft, flatten, '
+            'size+1 is never exhausted). graft_refines_spec: graft(x) refines the set-level graft exactly (x replaced by the nested '
+            'graph, dependees -> initial nodes, terminal nodes -> dependencies, constraints passed through an empty nested '
+            'graph), with dependees/initial/terminal read through the abstraction (dependees_reads, '
+            'initial_terminal_spec). flatten (loop of grafts), '
             'transitive reduction/closure, dependees, initial/terminal, <=, == are in the executable model and checked '
             'against DepGraph and against the set-level oracle on every run, but their theorems are not proved yet.',
             'Trusted: Lean kernel + standard axioms; correspondence sampled (exhaustive <= 4 nodes in thorough); node '
